@@ -572,6 +572,60 @@ def unit_table(unit):
         res = None
     if table_obs(t) != before and not same_table(table_obs(t), model):
         agg.violation(V("table.getitem", "operand-modified", d, before, table_obs(t)))
+    # ---- every documented 2-D key form, in both argument orders: t[rows, cols] and t[cols, rows]
+    if nrows and names:
+        row_specs = [slice(None), slice(0, 1), slice(1, None), slice(None, None, -1), slice(0, 0)] + list(range(-nrows, nrows))
+        uniq = [nm for nm in stored if list(names).count(nm) == 1]
+        col_specs = [("int", c) for c in range(-len(names), len(names))] + [("name", nm) for nm in stored] + \
+                    [("names", tuple(p)) for p in itertools.permutations(stored, 2)] + [("names", (nm,)) for nm in stored] + \
+                    [("cslice", (a, b)) for a in (None, 0, 1) for b in (None, 1, len(names))]
+        for rs in row_specs:
+            for kind_, cs in col_specs:
+                for order in ("rows-first", "cols-first"):
+                    if order == "cols-first" and kind_ in ("int", "cslice"):
+                        continue            # ints and slices are row specifiers when they come first
+                    agg.evals += 1; agg.transitions += 1; agg.compared += 1
+                    ridx = list(range(nrows))[rs] if isinstance(rs, slice) else rs
+                    if kind_ == "int":
+                        cidx = [cs % len(names)]; key_c = cs
+                    elif kind_ == "name":
+                        cidx = [list(names).index(cs)]; key_c = cs
+                    elif kind_ == "names":
+                        cidx = [list(names).index(x) for x in cs]; key_c = cs
+                    else:
+                        cidx = list(range(len(names)))[slice(*cs)]; key_c = slice(*cs)
+                    case = dict(d, rowspec=_kdesc(rs) if isinstance(rs, slice) else rs, colspec=[kind_, list(cs) if isinstance(cs, tuple) else cs], order=order)
+                    try:
+                        got = t[rs, key_c] if order == "rows-first" else t[key_c, rs]
+                    except Exception as e:
+                        got = e
+                    # expected value
+                    if isinstance(ridx, int):
+                        want_cells = [model[c][1][ridx] for c in cidx]
+                        if kind_ in ("int", "name"):
+                            okk = (not isinstance(got, Exception)) and same_list([got], [want_cells[0]])
+                        else:
+                            if isinstance(got, Exception):
+                                agg.skipped["2d-int-row-with-multi-column-key-raises"] += 1
+                                continue
+                            try:
+                                okk = same_list(list(got), want_cells)
+                            except Exception:
+                                # one row and a one-name tuple: a bare cell is an acceptable reading of the key
+                                okk = len(want_cells) == 1 and same_list([got], want_cells)
+                    else:
+                        want_cols = [(model[c][0], [model[c][1][i] for i in ridx]) for c in cidx]
+                        if isinstance(got, Exception):
+                            okk = False
+                        elif kind_ in ("int", "name"):
+                            okk = hasattr(got, "_underlying") and type(got).__name__ != "Table" and same_list(list(got._underlying), want_cols[0][1])
+                        else:
+                            okk = same_table(table_obs(got), want_cols) or (not ridx and type(got).__name__ != "Table") or (not cidx)
+                    if not okk:
+                        agg.violation(V("table.getitem.2dform", "wrong-cells-for-2d-key" + ("-cols-first" if order == "cols-first" else ""), case,
+                                        None, repr(got)[:120] if isinstance(got, Exception) else (table_obs(got) if type(got).__name__ == "Table" else repr(got)[:120])))
+                    else:
+                        agg.outcomes["2dform-ok"] += 1
     # ---- integer row index: in range -> that row's cells; out of range (either side) -> an error when the row is read
     for i in range(-2 * nrows - 2, 2 * nrows + 2):
         agg.evals += 1; agg.transitions += 1; agg.compared += 1
